@@ -144,7 +144,8 @@ Words == IF PoolSel = "cmd"
 \* verbatim lines of a cmdline block (leading quote: the rest is pasted as it is, markers included)
 VerbWords == IF PoolSel = "cmd"
              THEN << [txt |-> "'a@", vrt |-> RT("a@", << <<La, Lit("@")>> >>)],
-                     [txt |-> "'x.", vrt |-> RT("x.", << <<Lx, Dot>> >>)] >>
+                     [txt |-> "'x.", vrt |-> RT("x.", << <<Lx, Dot>> >>)],
+                     [txt |-> "''a", vrt |-> RT("'a", << <<Lit("'"), La>> >>)] >>   \* only ONE quote is the marker
              ELSE <<>>
 
 PfxPool == IF PoolSel = "hyg" THEN << RT("\"a", << <<Lit("\""), La>> >>), RT("\\\\", One(Lit("\\"))) >>
